@@ -1,7 +1,225 @@
 import Rare.Base.Proto
+import Rare.Model.C15
+/-!
+Driver of C15: `follow <notify|poll> <reopen> <tail> <history>` – the model's `expectedDelivered`.
+
+The history is executed on the transition systems of `Rare.Model.C15` with the schedule the harness
+enforces on the real code: after every writer operation the kernel goroutine and the reader run
+until nothing more can happen (reader blocked / one full quiet poll cycle), except inside a window
+in which the consumer is parked outside `Read` (`H … r`, or `S … r` at the start), where only the
+kernel goroutine runs.  Every function below performs transitions of the LTS only (`dispatch`,
+`readSome` with the whole unread part, `readEmpty`, `recvW`, `recvD`, … / `statDiff`, `reopen`, …).
+The notify run is repeated with the other resolutions of the two scheduling choices that remain
+(which ready `select` case is taken; reader first or kernel goroutine first) and the driver answers
+`schedule-dependent` if the delivered streams differ.
+-/
 namespace Rare.Drv.C15
+open Rare Rare.Follow Rare.C15.Spec
+
+/-! ### notify -/
+
+def nAppend (s : NSt UInt8) (bs : Bytes) : NSt UInt8 :=
+  match s.fs.path with
+  | some i => if bs.isEmpty then s else { s with fs := s.fs.append i bs, evq := s.evq ++ [.write] }
+  | none => s
+
+def nRemove (s : NSt UInt8) : NSt UInt8 :=
+  match s.fs.path with
+  | some _ => { s with fs := s.fs.remove, evq := s.evq ++ [.remove], removes := s.removes + 1 }
+  | none => s
+
+def nCreate (s : NSt UInt8) : NSt UInt8 :=
+  match s.fs.path with
+  | some _ => s
+  | none => { s with fs := s.fs.create, evq := s.evq ++ [.create] }
+
+/-- one step of the kernel goroutine, if it has one -/
+def nKernel (cfg : NCfg) (s : NSt UInt8) : Option (NSt UInt8) :=
+  match s.evq with
+  | e :: rest => some (dispatch1 cfg { s with evq := rest } e)
+  | [] => none
+
+/-- one step of the reader, if it is not blocked -/
+def nReader (cfg : NCfg) (prefD : Bool) (s : NSt UInt8) : Option (NSt UInt8) :=
+  match s.rd with
+  | .ended => none
+  | .reading =>
+    match s.f with
+    | none => some { s with rd := .selecting }
+    | some h =>
+      let u := unread s.fs h
+      if u.isEmpty then some { s with rd := .selecting }
+      else some { s with f := some { h with pos := h.pos + u.length }, delivered := s.delivered ++ u }
+  | .selecting =>
+    let takeD := 0 < s.pd && (prefD || s.pw == 0)
+    if takeD then
+      if cfg.reopen then some { reopenIfReplaced { s with pd := s.pd - 1 } with rd := .reading }
+      else some { NSt.closeFile { s with pd := s.pd - 1 } with rd := .ended }
+    else if 0 < s.pw then some { onWrite cfg { s with pw := s.pw - 1 } with rd := .reading }
+    else none
+
+def nSettle (cfg : NCfg) (prefD kernelFirst held : Bool) : Nat → NSt UInt8 → NSt UInt8
+  | 0, s => s
+  | fuel + 1, s =>
+    let rdr := if held then none else nReader cfg prefD s
+    let first := if kernelFirst then nKernel cfg s else rdr
+    let second := if kernelFirst then rdr else nKernel cfg s
+    match first with
+    | some s' => nSettle cfg prefD kernelFirst held fuel s'
+    | none =>
+      match second with
+      | some s' => nSettle cfg prefD kernelFirst held fuel s'
+      | none => s
+
+/-! ### poll -/
+
+def pAppend (s : PSt UInt8) (bs : Bytes) : PSt UInt8 :=
+  match s.fs.path with
+  | some i => if bs.isEmpty then s else { s with fs := s.fs.append i bs }
+  | none => s
+
+def pRemove (s : PSt UInt8) : PSt UInt8 :=
+  match s.fs.path with
+  | some _ => { s with fs := s.fs.remove, removes := s.removes + 1 }
+  | none => s
+
+def pCreate (s : PSt UInt8) : PSt UInt8 :=
+  match s.fs.path with
+  | some _ => s
+  | none => { s with fs := s.fs.create }
+
+/-- One call cycle of the polling reader starting at `attempt 0`: `some s'` if something happened
+    (bytes delivered / file re-opened / EOF), `none` after a quiet cycle (the `ReadAttempts` empty
+    reads and the `Stat` changed nothing but the attempt counter). -/
+def pCycle (cfg : PCfg) (s : PSt UInt8) : Option (PSt UInt8) :=
+  match s.rd with
+  | .ended => none
+  | _ =>
+    let u := match s.f with | some h => unread s.fs h | none => []
+    match s.f, u.isEmpty || cfg.attempts == 0 with
+    | some h, false =>
+      some { s with f := some { h with pos := h.pos + u.length }, readBytes := s.readBytes + u.length,
+                    delivered := s.delivered ++ u, rd := .attempt 0 }
+    | _, _ =>
+      -- readEmpty × ReadAttempts, loopDone (or nilSleep), then the Stat
+      if cfg.reopen then
+        match s.fs.path with
+        | none => none
+        | some j =>
+          let sz := (s.fs.content j).length
+          if sz = s.readBytes then none
+          else
+            let s' := openStep { s with rd := .opening sz } sz
+            if merges { s with rd := .opening sz } sz then none else some s'
+      else
+        match s.fs.path with
+        | none => some { s with f := none, hist := s.pushOld, rd := .ended }
+        | some _ => none
+
+def pSettle (cfg : PCfg) : Nat → PSt UInt8 → PSt UInt8
+  | 0, s => s
+  | fuel + 1, s =>
+    match pCycle cfg s with
+    | some s' => pSettle cfg fuel s'
+    | none => s
+
+/-! ### histories -/
+
+inductive Op
+  | append (b : Bytes) | pause | drain | removeDrained | remove | create | hold (b : Bytes) | release | skip
+  deriving Repr
+
+def parseOp (st : String) : Option Op :=
+  match st.toList with
+  | 'a' :: r => (Hex.dec (String.ofList r)).map .append
+  | 'H' :: r => (Hex.dec (String.ofList r)).map .hold
+  | 'p' :: _ => some .pause
+  | 'B' :: _ => some .skip
+  | 'A' :: _ => some .skip
+  | ['S'] => some .skip
+  | ['w'] => some .drain
+  | ['d'] => some .removeDrained
+  | ['x'] => some .remove
+  | ['c'] => some .create
+  | ['r'] => some .release
+  | [] => some .skip
+  | _ => none
+
+structure Sim (σ : Type) where
+  st : σ
+  held : Bool
+
+def runNotify (cfg : NCfg) (prefD kf : Bool) (s0 : NSt UInt8) (startHeld : Bool) (ops : List Op) : NSt UInt8 :=
+  let fuel := 100000
+  let settle := fun (held : Bool) (s : NSt UInt8) => nSettle cfg prefD kf held fuel s
+  let fin := ops.foldl (fun (sim : Sim (NSt UInt8)) op =>
+    match op with
+    | .append b => { sim with st := settle sim.held (nAppend sim.st b) }
+    | .remove | .removeDrained => { sim with st := settle sim.held (nRemove sim.st) }
+    | .create => { sim with st := settle sim.held (nCreate sim.st) }
+    | .hold b =>
+      if sim.held || b.isEmpty || sim.st.fs.path.isNone then { sim with st := settle sim.held (nAppend sim.st b) }
+      else
+        -- the consumer delivers `b` and is then parked outside `Read`: reader state `reading`
+        let s1 := settle false (nAppend sim.st b)
+        { st := if s1.rd == .ended then s1 else { s1 with rd := .reading }, held := true }
+    | .release => { st := settle false sim.st, held := false }
+    | .pause | .drain | .skip => { sim with st := settle sim.held sim.st })
+    { st := settle startHeld s0, held := startHeld }
+  settle false fin.st
+
+def runPoll (cfg : PCfg) (s0 : PSt UInt8) (startHeld : Bool) (ops : List Op) : PSt UInt8 :=
+  let fuel := 100000
+  let settle := fun (held : Bool) (s : PSt UInt8) => if held then s else pSettle cfg fuel s
+  let fin := ops.foldl (fun (sim : Sim (PSt UInt8)) op =>
+    match op with
+    | .append b => { sim with st := settle sim.held (pAppend sim.st b) }
+    | .remove | .removeDrained => { sim with st := settle sim.held (pRemove sim.st) }
+    | .create => { sim with st := settle sim.held (pCreate sim.st) }
+    | .hold b =>
+      if sim.held || b.isEmpty || sim.st.fs.path.isNone then { sim with st := settle sim.held (pAppend sim.st b) }
+      else { st := settle false (pAppend sim.st b), held := true }
+    | .release => { st := settle false sim.st, held := false }
+    | .pause | .drain | .skip => { sim with st := settle sim.held sim.st })
+    { st := settle startHeld s0, held := startHeld }
+  settle false fin.st
+
+def answer (d : Bytes) (eof : Bool) : String :=
+  s!"ok {Hex.enc d} eof={if eof then 1 else 0} drainerr=0"
 
 def handle : List String → String
+  | ["follow", mode, reopenS, tailS, hist] =>
+    let reopen := reopenS == "1"
+    let tail := tailS == "1"
+    let steps := hist.splitOn ","
+    let first := steps.headD ""
+    let c0 : Option Bytes :=
+      match first.toList with
+      | 'i' :: r => Hex.dec (String.ofList r)
+      | _ => none
+    let rest := match first.toList with
+      | 'i' :: _ => steps.drop 1
+      | ['n'] => steps.drop 1
+      | _ => steps
+    if first.startsWith "i" && c0.isNone then "bad-args" else
+    match rest.mapM parseOp with
+    | none => "bad-args"
+    | some ops =>
+      if c0.isNone && !reopen then "ok - eof=0 drainerr=0 newerr=1" else
+      let startHeld := steps.contains "S"
+      let attempts := (steps.filterMap fun st => if st.startsWith "A" then (st.drop 1).toNat? else none).getLastD 2
+      if mode == "notify" then
+        let run := fun (prefD kf : Bool) =>
+          runNotify { capW := 1, capD := 1, reopen := reopen } prefD kf (ninit c0 tail) startHeld ops
+        let a := run true true
+        let others := [run false true, run true false, run false false]
+        if others.all fun o => o.delivered == a.delivered && (o.rd == .ended) == (a.rd == .ended) then
+          answer a.delivered (a.rd == .ended)
+        else "schedule-dependent"
+      else if mode == "poll" then
+        let s := runPoll { attempts := attempts, reopen := reopen } (pinit c0 tail) startHeld ops
+        answer s.delivered (s.rd == .ended)
+      else "bad-args"
   | _ => "bad-op"
 
 end Rare.Drv.C15
